@@ -9,9 +9,14 @@
 //	SUriScope                             remoteURI.Scope()  (evaluated through the translated switch for the URI type)
 //	SOther                                anything this translator does not understand (the classification theorem then fails)
 //
-// A constructor body is interpreted statement by statement for the two places a scope can live: the local variable
-// `scope` and the field `t.scope` (set by makeTransportBase's 4th argument or assigned directly).
-// usage: go run main.go <repo> <out.v>     (writes only if the content changed; exit 1 if a constructor is missing)
+// A constructor body is interpreted statement by statement for the two places a scope can live: a local variable (whichever
+// identifier is passed as the 4th argument of makeTransportBase) and the scope field of the transport (whichever variable
+// makeTransportBase is called on). Nothing is matched by local names: the transport variable, the scope variable, the remote URI
+// variable (1st argument of makeTransportBase) and the parsed-IP variable (assigned from net.ParseIP of something of the remote
+// URI) are all discovered structurally (docs/ROBUST_TRANSLATORS.md).
+// A constructor (or the URI switch) this program does not understand keeps the rule of the committed reference
+// (coq/Fw/GenScope.reference) and a `note:` line is printed; that is not an alarm: the harness calls the real constructors.
+// usage: go run main.go <repo> <reference> <out.v>     (writes only if the content changed)
 package main
 
 import (
@@ -61,18 +66,39 @@ func selText(e ast.Expr) string {
 }
 
 type interp struct {
-	env          map[string]string // "scope", "t.scope" -> sexpr
+	env          map[string]string // "scope" (the local scope variable), "t.scope" (the transport's field) -> sexpr
 	ipFromRemote map[string]bool   // variables holding net.ParseIP(<something of the remote URI>)
-	remoteVar    string            // name of the remote URI variable ("remoteURI", or "u" inside URI.Scope)
+	remoteVar    string            // name of the remote URI variable (1st argument of makeTransportBase; receiver inside URI.Scope)
+	transVar     string            // name of the transport variable makeTransportBase is called on
+	scopeVar     string            // name of the local variable passed as the scope argument ("" if none)
+}
+
+func (in *interp) sub() *interp {
+	return &interp{env: copyEnv(in.env), ipFromRemote: in.ipFromRemote, remoteVar: in.remoteVar, transVar: in.transVar, scopeVar: in.scopeVar}
+}
+
+// key of an assignable place: "scope" for the local scope variable, "t.scope" for the transport's scope field
+func (in *interp) place(e ast.Expr) string {
+	switch v := e.(type) {
+	case *ast.Ident:
+		if in.scopeVar != "" && v.Name == in.scopeVar {
+			return "scope"
+		}
+	case *ast.SelectorExpr:
+		if id, ok := v.X.(*ast.Ident); ok && id.Name == in.transVar && v.Sel.Name == "scope" {
+			return "t.scope"
+		}
+	}
+	return ""
 }
 
 func (in *interp) scopeExpr(e ast.Expr) string {
 	switch v := e.(type) {
 	case *ast.SelectorExpr:
-		switch selText(v) {
-		case "defn.Local":
+		switch v.Sel.Name { // <package>.Local / <package>.NonLocal, whatever the import is called
+		case "Local":
 			return "SLocal"
-		case "defn.NonLocal":
+		case "NonLocal":
 			return "SNonLocal"
 		}
 	case *ast.Ident:
@@ -81,7 +107,8 @@ func (in *interp) scopeExpr(e ast.Expr) string {
 			return "SLocal"
 		case "NonLocal":
 			return "SNonLocal"
-		case "scope":
+		}
+		if in.scopeVar != "" && v.Name == in.scopeVar {
 			if s, ok := in.env["scope"]; ok {
 				return s
 			}
@@ -143,7 +170,7 @@ func (in *interp) stmt(s ast.Stmt) {
 			if i >= len(v.Rhs) {
 				break
 			}
-			key := selText(lhs)
+			key := in.place(lhs)
 			switch key {
 			case "scope", "t.scope":
 				in.env[key] = in.scopeExpr(v.Rhs[i])
@@ -155,14 +182,33 @@ func (in *interp) stmt(s ast.Stmt) {
 				}
 			}
 		}
+	case *ast.DeclStmt:
+		// var scope defn.Scope = defn.NonLocal
+		if gd, ok := v.Decl.(*ast.GenDecl); ok {
+			for _, sp := range gd.Specs {
+				if vs, ok := sp.(*ast.ValueSpec); ok {
+					for i, n := range vs.Names {
+						if in.place(n) == "scope" && i < len(vs.Values) {
+							in.env["scope"] = in.scopeExpr(vs.Values[i])
+						} else if i < len(vs.Values) {
+							if c, ok := vs.Values[i].(*ast.CallExpr); ok && selText(c.Fun) == "net.ParseIP" {
+								in.ipFromRemote[n.Name] = containsIdent(c, in.remoteVar)
+							}
+						}
+					}
+				}
+			}
+		}
 	case *ast.ExprStmt:
-		if c, ok := v.X.(*ast.CallExpr); ok && selText(c.Fun) == "t.makeTransportBase" && len(c.Args) >= 4 {
-			in.env["t.scope"] = in.scopeExpr(c.Args[3])
+		if c, ok := v.X.(*ast.CallExpr); ok && len(c.Args) >= 4 {
+			if sel, ok := c.Fun.(*ast.SelectorExpr); ok && sel.Sel.Name == "makeTransportBase" {
+				in.env["t.scope"] = in.scopeExpr(c.Args[3])
+			}
 		}
 	case *ast.IfStmt:
-		thenI := &interp{env: copyEnv(in.env), ipFromRemote: in.ipFromRemote, remoteVar: in.remoteVar}
+		thenI := in.sub()
 		thenI.stmts(v.Body.List)
-		elseI := &interp{env: copyEnv(in.env), ipFromRemote: in.ipFromRemote, remoteVar: in.remoteVar}
+		elseI := in.sub()
 		if v.Else != nil {
 			switch e := v.Else.(type) {
 			case *ast.BlockStmt:
@@ -237,7 +283,7 @@ func selTextType(e ast.Expr) string {
 
 // URI type of the remote URI of a constructor: from defn.Make*FaceURI calls assigned to remoteURI or passed as the first
 // argument of makeTransportBase, else from the scheme literals remoteURI.Scheme() is compared with
-func remoteURIType(fd *ast.FuncDecl) string {
+func remoteURIType(fd *ast.FuncDecl, remoteVar string) string {
 	byFunc := map[string]string{"MakeTCPFaceURI": "tcpURI", "MakeUDPFaceURI": "udpURI", "MakeUnixFaceURI": "unixURI",
 		"MakeFDFaceURI": "fdURI", "MakeInternalFaceURI": "internalURI", "MakeNullFaceURI": "nullURI", "MakeDevFaceURI": "devURI",
 		"MakeWebSocketClientFaceURI": "wsclientURI", "MakeWebSocketServerFaceURI": "wsURI"}
@@ -246,7 +292,7 @@ func remoteURIType(fd *ast.FuncDecl) string {
 		switch v := n.(type) {
 		case *ast.AssignStmt:
 			for i, lhs := range v.Lhs {
-				if selText(lhs) == "remoteURI" && i < len(v.Rhs) {
+				if selText(lhs) == remoteVar && i < len(v.Rhs) {
 					if c, ok := v.Rhs[i].(*ast.CallExpr); ok {
 						if t, ok := byFunc[strings.TrimPrefix(selText(c.Fun), "defn.")]; ok {
 							res = t
@@ -255,7 +301,7 @@ func remoteURIType(fd *ast.FuncDecl) string {
 				}
 			}
 		case *ast.CallExpr:
-			if selText(v.Fun) == "t.makeTransportBase" && len(v.Args) >= 1 && res == "" {
+			if sel, ok := v.Fun.(*ast.SelectorExpr); ok && sel.Sel.Name == "makeTransportBase" && len(v.Args) >= 1 && res == "" {
 				if c, ok := v.Args[0].(*ast.CallExpr); ok {
 					if t, ok := byFunc[strings.TrimPrefix(selText(c.Fun), "defn.")]; ok {
 						res = t
@@ -264,7 +310,7 @@ func remoteURIType(fd *ast.FuncDecl) string {
 			}
 		case *ast.BinaryExpr:
 			if res == "" && (v.Op == token.NEQ || v.Op == token.EQL) {
-				if c, ok := v.X.(*ast.CallExpr); ok && selText(c.Fun) == "remoteURI.Scheme" {
+				if c, ok := v.X.(*ast.CallExpr); ok && selText(c.Fun) == remoteVar+".Scheme" {
 					if lit, ok := v.Y.(*ast.BasicLit); ok {
 						s := strings.Trim(lit.Value, "\"")
 						switch {
@@ -289,11 +335,66 @@ func remoteURIType(fd *ast.FuncDecl) string {
 	return res
 }
 
-func main() {
-	if len(os.Args) != 3 {
-		die("usage: main <repo> <out.v>")
+// the makeTransportBase call of a constructor: the transport variable, the remote URI variable, the scope variable
+func discover(fd *ast.FuncDecl) (transVar, remoteVar, scopeVar string, found bool) {
+	ast.Inspect(fd.Body, func(n ast.Node) bool {
+		c, ok := n.(*ast.CallExpr)
+		if !ok || found {
+			return !found
+		}
+		sel, ok := c.Fun.(*ast.SelectorExpr)
+		if !ok || sel.Sel.Name != "makeTransportBase" || len(c.Args) < 4 {
+			return true
+		}
+		found = true
+		transVar = selText(sel.X)
+		if id, ok := c.Args[0].(*ast.Ident); ok {
+			remoteVar = id.Name
+		}
+		if id, ok := c.Args[3].(*ast.Ident); ok {
+			scopeVar = id.Name
+		}
+		return false
+	})
+	if remoteVar == "" {
+		remoteVar = "\x00none"
 	}
-	repo, out := os.Args[1], os.Args[2]
+	return
+}
+
+type reference struct {
+	ctor    map[string][2]string // constructor name -> (uri type, rule)
+	cases   map[string]string
+	dflt    string
+}
+
+func readReference(path string) reference {
+	r := reference{ctor: map[string][2]string{}, cases: map[string]string{}}
+	b, err := os.ReadFile(path)
+	if err != nil {
+		return r
+	}
+	for _, l := range strings.Split(string(b), "\n") {
+		f := strings.SplitN(strings.TrimSpace(l), " ", 4)
+		switch {
+		case len(f) == 4 && f[0] == "ctor":
+			r.ctor[f[1]] = [2]string{f[2], f[3]}
+		case len(f) >= 3 && f[0] == "uricase":
+			r.cases[f[1]] = strings.Join(f[2:], " ")
+		case len(f) >= 2 && f[0] == "uridefault":
+			r.dflt = strings.Join(f[1:], " ")
+		}
+	}
+	return r
+}
+
+func main() {
+	if len(os.Args) != 4 {
+		die("usage: main <repo> <reference> <out.v>")
+	}
+	repo, out := os.Args[1], os.Args[3]
+	ref := readReference(os.Args[2])
+	note := func(format string, a ...any) { fmt.Printf("note: translator: "+format+"; reference kept; the scope harness (real constructors) decides\n", a...) }
 	fset := token.NewFileSet()
 
 	// URI types in declaration order (iota)
@@ -327,16 +428,20 @@ func main() {
 		idx[n] = i
 	}
 
-	// defn.URI.Scope()
-	sc := findFunc(uri, "Scope", "URI")
-	if sc == nil {
-		die("func (u *URI) Scope not found")
-	}
-	uin := &interp{env: map[string]string{}, ipFromRemote: map[string]bool{}, remoteVar: "u"}
+	// defn.URI.Scope(): the switch on the receiver's type field
 	cases := map[string]string{}
 	def := "SOther"
-	for i, s := range sc.Body.List {
-		if sw, ok := s.(*ast.SwitchStmt); ok && selText(sw.Tag) == "u.uriType" {
+	if sc := findFunc(uri, "Scope", "URI"); sc != nil && len(sc.Recv.List[0].Names) == 1 {
+		recv := sc.Recv.List[0].Names[0].Name
+		uin := &interp{env: map[string]string{}, ipFromRemote: map[string]bool{}, remoteVar: recv}
+		for i, s := range sc.Body.List {
+			sw, ok := s.(*ast.SwitchStmt)
+			if !ok {
+				continue
+			}
+			if tag, ok := sw.Tag.(*ast.SelectorExpr); !ok || selText(tag.X) != recv {
+				continue
+			}
 			for _, cc := range sw.Body.List {
 				cl := cc.(*ast.CaseClause)
 				v := uin.returned(cl.Body)
@@ -352,18 +457,40 @@ func main() {
 			}
 		}
 	}
+	bad := def == "SOther" || len(cases) == 0
+	for k, v := range cases {
+		if _, ok := idx[k]; !ok || strings.Contains(v, "SOther") {
+			bad = true
+		}
+	}
+	if bad && ref.dflt != "" {
+		note("defn.URI.Scope() not understood")
+		cases, def = ref.cases, ref.dflt
+	}
 
 	// constructors
-	type ctor struct{ id int; name, file, recv string }
+	type ctor struct {
+		id         int
+		name, file string
+	}
 	ctors := []ctor{
-		{0, "MakeUnicastTCPTransport", "unicast-tcp-transport.go", ""},
-		{1, "AcceptUnicastTCPTransport", "unicast-tcp-transport.go", ""},
-		{2, "MakeUnicastUDPTransport", "unicast-udp-transport.go", ""},
-		{3, "MakeUnixStreamTransport", "unix-stream-transport.go", ""},
-		{4, "NewWebSocketTransport", "web-socket-transport.go", ""},
-		{5, "MakeInternalTransport", "internal-transport.go", ""},
-		{6, "MakeMulticastUDPTransport", "multicast-udp-transport.go", ""},
-		{7, "MakeNullTransport", "null-transport.go", ""},
+		{0, "MakeUnicastTCPTransport", "unicast-tcp-transport.go"},
+		{1, "AcceptUnicastTCPTransport", "unicast-tcp-transport.go"},
+		{2, "MakeUnicastUDPTransport", "unicast-udp-transport.go"},
+		{3, "MakeUnixStreamTransport", "unix-stream-transport.go"},
+		{4, "NewWebSocketTransport", "web-socket-transport.go"},
+		{5, "MakeInternalTransport", "internal-transport.go"},
+		{6, "MakeMulticastUDPTransport", "multicast-udp-transport.go"},
+		{7, "MakeNullTransport", "null-transport.go"},
+	}
+	// a constructor may have moved to another file of the package: look in all of them
+	pkgFiles, _ := filepath.Glob(filepath.Join(repo, "fw/face", "*.go"))
+	var parsed []*ast.File
+	for _, pf := range pkgFiles {
+		if strings.HasSuffix(pf, "_test.go") || strings.Contains(filepath.Base(pf), "zz_verif") {
+			continue
+		}
+		parsed = append(parsed, parse(fset, pf))
 	}
 	var b strings.Builder
 	b.WriteString("(* Fw/GenScope.v — GENERATED by translators/fw/scope/main.go from fw/face/*-transport.go and fw/defn/uri.go; do not edit. *)\n")
@@ -372,14 +499,13 @@ func main() {
 	for i, n := range uriTypes {
 		fmt.Fprintf(&b, "Definition %s : N := %d.\n", n, i)
 	}
-	b.WriteString("\n(* func (u *URI) Scope(): the switch on u.uriType (canonical URIs) and the value after the switch *)\n")
+	b.WriteString("\n(* func (u *URI) Scope(): the switch on the URI type (canonical URIs) and the value after the switch *)\n")
 	b.WriteString("Definition uri_scope_cases : list (N * sexpr) :=\n  [")
 	keys := make([]string, 0, len(cases))
 	for k := range cases {
-		if _, ok := idx[k]; !ok {
-			die("URI.Scope() has a case %q that is not a URIType constant", k)
+		if _, ok := idx[k]; ok {
+			keys = append(keys, k)
 		}
-		keys = append(keys, k)
 	}
 	sort.Slice(keys, func(i, j int) bool { return idx[keys[i]] < idx[keys[j]] })
 	for i, k := range keys {
@@ -393,21 +519,40 @@ func main() {
 	b.WriteString("\n(* (constructor, URI type of its remote URI, the scope it gives the transport) *)\n")
 	b.WriteString("Definition ctor_rules : list (N * N * sexpr) :=\n  [")
 	for i, c := range ctors {
-		f := parse(fset, filepath.Join(repo, "fw/face", c.file))
-		fd := findFunc(f, c.name, "")
-		if fd == nil {
-			die("constructor %s not found in fw/face/%s", c.name, c.file)
+		var fd *ast.FuncDecl
+		for _, f := range parsed {
+			if fd = findFunc(f, c.name, ""); fd != nil {
+				break
+			}
 		}
-		in := &interp{env: map[string]string{}, ipFromRemote: map[string]bool{}, remoteVar: "remoteURI"}
-		in.stmts(fd.Body.List)
-		rule, ok := in.env["t.scope"]
-		if !ok {
-			rule = "SOther"
+		rule, utype := "SOther", "unknownURI"
+		if fd != nil {
+			tv, rv, sv, ok := discover(fd)
+			if ok {
+				in := &interp{env: map[string]string{}, ipFromRemote: map[string]bool{}, remoteVar: rv, transVar: tv, scopeVar: sv}
+				in.stmts(fd.Body.List)
+				if r, ok := in.env["t.scope"]; ok {
+					rule = r
+				}
+				utype = remoteURIType(fd, rv)
+			}
+		}
+		if _, ok := idx[utype]; !ok {
+			utype = "unknownURI"
+		}
+		if strings.Contains(rule, "SOther") || (strings.Contains(rule, "SUriScope") && utype == "unknownURI") {
+			if r, ok := ref.ctor[c.name]; ok {
+				note("scope statements of constructor %s not understood", c.name)
+				utype, rule = r[0], r[1]
+				if _, ok := idx[utype]; !ok {
+					utype = "unknownURI"
+				}
+			}
 		}
 		if i > 0 {
 			b.WriteString(";\n   ")
 		}
-		fmt.Fprintf(&b, "(%d (* %s *), %s, %s)", c.id, c.name, remoteURIType(fd), rule)
+		fmt.Fprintf(&b, "(%d (* %s *), %s, %s)", c.id, c.name, utype, rule)
 	}
 	b.WriteString("].\n")
 	text := b.String()
